@@ -295,7 +295,11 @@ def run_case(ctx, case, model=True):
             if abs(impl - min(max(prod, 0.01), 1.0)) > 1e-7:
                 ctx.fail("predicate", "serial-not-product-of-stages", f"system load {x}: {impl} != product {prod} (ratings {[s.rated_power for s in stages]})", where)
                 break
-        sys_curve = [[x / 10.0, 1.0] for x in range(11)]
+        # the train's characteristic is given only where every stage's own curve is (below/above that the
+        # stages are extrapolated, which is the situation of known finding D16)
+        lo = max(comps.covered_range(sc["curve"])[0] * sc["rated"] / rated for sc in case["stages"])
+        hi = min(comps.covered_range(sc["curve"])[1] * sc["rated"] / rated for sc in case["stages"])
+        sys_curve = [[lo, 1.0], [max(lo, hi), 1.0]]
         conv_checks(ctx, comp, rated, sys_curve, case["powers"], where, label="train: ")
     else:
         spec = case["spec"]
